@@ -78,6 +78,7 @@ func checkC16(c *Check) {
 	c16ForcedClassHasNoStatus(c, "R8")
 	c16ReplyClassRewrittenForRcptOnly(c, "R9")
 	c16AuthRepliesAreSMTPErrors(c, "R10")
+	c16AuthzTemporaryKept(c, "R11")
 	c.Rule("R3c", "tryDelivery: the status kept for the report and the retry decision come from the same error: every path to the temporariness classification of an attempt's error has stored that error's conversion as the recipient's status (a status left over from an earlier attempt can have the other class)", 1)
 	c16StatusFromThisAttempt(c)
 
